@@ -58,6 +58,129 @@ def accStep (st : Last × List Acc) : Rec → Last × List Acc
 
 def accepted (rs : List Rec) : List Acc := (rs.foldl accStep ([], [])).2
 
+/-! ## C12 / C01 at converter level: what the bare record history says about cpu deltas and off-CPU samples
+
+Declarative reading, per thread incarnation (same cut points as `accStep`: EXIT, EXEC), in terms of *cumulative
+totals* of the bare history (`CS.hstep`: a gap counts as running when its left event is a switch-in or an
+accepted sample, as sleeping when its left event is a switch-out) — no accumulators, no remainders:
+
+* an accepted sample carries `running so far − running already attributed` (ns; the profile stores µs);
+* at a wake-up (accepted sample or switch-in that ends a sleep) the number of off-CPU sample units owed is
+  `⌊sleeping so far / interval⌋ − units already accounted`; if that is ≥ 1 and a `sched_switch` sample of the
+  thread has been seen since its last sample / switch-in, the units appear as a sample at
+  `end − (units − 1)·interval` (weight 1 unit, carrying the running time not yet attributed) and, for more than
+  one unit, a rest sample at `end = wake-up − sleeping mod interval` (weight `units − 1`, cpu 0); without such a
+  stack the units are accounted but nothing appears (the recorded deviation "dropped group"). -/
+
+namespace CsSpec
+
+/-- expected output sample: pid, tid, raw time, off-CPU?, weight, cpu delta in ns -/
+structure Exp where
+  pid : Nat
+  tid : Nat
+  t : Nat
+  off : Bool
+  weight : Nat
+  cpuNs : Nat
+deriving Repr, DecidableEq
+
+structure TS where
+  h : CS.H := CS.H.init
+  /-- running time already attributed to a sample -/
+  handed : Nat := 0
+  /-- off-CPU sample units already accounted (emitted or dropped) -/
+  counted : Nat := 0
+  hasStack : Bool := false
+  lastSample : Option Nat := none
+  /-- groups dropped because no stack was stored (units) -/
+  dropped : Nat := 0
+  /-- the closed sleeps (switch-out time, wake-up time), newest first -/
+  sleeps : List (Nat × Nat) := []
+deriving Repr
+
+abbrev Tab := List ((Nat × Nat) × TS)
+
+def tget (l : Tab) (pid tid : Nat) : TS :=
+  ((l.find? (fun e => e.1.1 == pid && e.1.2 == tid)).map (·.2)).getD {}
+def tset (l : Tab) (pid tid : Nat) (v : TS) : Tab :=
+  ((pid, tid), v) :: l.filter (fun e => !(e.1.1 == pid && e.1.2 == tid))
+
+/-- a wake-up candidate `e` (switch-in or accepted sample) at time `t` -/
+def wakeExp (cfg : Config) (pid tid : Nat) (ts : TS) (e : CS.Ev) (t : Nat) : TS × List Exp :=
+  let h' := CS.hstep ts.h e
+  let sleeping := match ts.h.last with | some (_, false) => true | _ => false
+  let ts := if sleeping then { ts with sleeps := ((ts.h.sleepStart.getD t), t) :: ts.sleeps } else ts
+  let total := h'.sleeping / cfg.interval
+  let units := total - ts.counted
+  if sleeping && decide (units ≥ 1) then
+    if ts.hasStack then
+      let end_ := t - h'.sleeping % cfg.interval
+      let first : Exp := ⟨pid, tid, end_ - (units - 1) * cfg.interval, true, cfg.offWeight, h'.running - ts.handed⟩
+      let rest : List Exp := if units > 1 then [⟨pid, tid, end_, true, i32OrZero (units - 1) * cfg.offWeight, 0⟩] else []
+      ({ ts with h := h', handed := h'.running, counted := total, hasStack := false }, first :: rest)
+    else ({ ts with h := h', counted := total, hasStack := false, dropped := ts.dropped + units }, [])
+  else ({ ts with h := h', hasStack := false }, [])
+
+def step (cfg : Config) (st : Tab × List Exp) : Rec → Tab × List Exp
+  | .sample pid tid t _ period _ _ =>
+    if tid = 0 then st else
+    let ts := tget st.1 pid tid
+    if ts.lastSample = some t then st else
+    let (ts, out) := wakeExp cfg pid tid { ts with lastSample := some t } (.sample t) t
+    let cpu := if cfg.offCpu.isSome then ts.h.running - ts.handed else period
+    let ts := if cfg.offCpu.isSome then { ts with handed := ts.h.running } else ts
+    (tset st.1 pid tid ts, st.2 ++ out ++ [⟨pid, tid, t, false, 1, cpu⟩])
+  | .switchIn pid tid t =>
+    if tid = 0 then st else
+    let (ts, out) := wakeExp cfg pid tid (tget st.1 pid tid) (.switchIn t) t
+    (tset st.1 pid tid ts, st.2 ++ out)
+  | .switchOut pid tid t =>
+    if tid = 0 then st else
+    let ts := tget st.1 pid tid
+    -- a repeated switch-out is not an event of the history (it says nothing new)
+    let ts := match ts.h.last with
+      | some (_, false) => ts
+      | _ => { ts with h := CS.hstep ts.h (.switchOut t) }
+    (tset st.1 pid tid ts, st.2)
+  | .sched pid tid t _ _ _ =>
+    let ts := { tget st.1 pid tid with hasStack := true }
+    let ts := if cfg.offCpu == some .schedSwitchAndSamples then
+        (match ts.h.last with
+         | some (_, false) => ts
+         | _ => { ts with h := CS.hstep ts.h (.switchOut t) })
+      else ts
+    (tset st.1 pid tid ts, st.2)
+  | .exit pid tid _ =>
+    if pid = tid then (st.1.filter (fun e => !(e.1.1 == pid)), st.2)
+    else (st.1.filter (fun e => !(e.1.1 == pid && e.1.2 == tid)), st.2)
+  | .comm pid tid _ true _ =>
+    if pid = tid then (st.1.filter (fun e => !(e.1.1 == pid)), st.2)
+    else (st.1.filter (fun e => !(e.1.1 == pid && e.1.2 == tid)), st.2)
+  | _ => st
+
+def run (cfg : Config) (rs : List Rec) : Tab × List Exp := rs.foldl (step cfg) ([], [])
+
+def expected (cfg : Config) (rs : List Rec) : List Exp := (run cfg rs).2
+
+/-- the time of a record, for the "time-ordered" precondition -/
+def recTime : Rec → Nat
+  | .sample _ _ t _ _ _ _ | .fork _ _ _ _ t | .exit _ _ t | .comm _ _ _ _ t | .mmap2 _ _ _ _ _ _ _ t
+  | .switchIn _ _ t | .switchOut _ _ t | .sched _ _ t _ _ _ => t
+
+def timeOrdered : List Rec → Bool
+  | a :: b :: rest => decide (recTime a ≤ recTime b) && timeOrdered (b :: rest)
+  | _ => true
+
+/-- does the history contain any context-switch related record? -/
+def hasCs (rs : List Rec) : Bool :=
+  rs.any (fun r => match r with | .switchIn .. | .switchOut .. | .sched .. => true | _ => false)
+
+/-- does the history end any incarnation (EXIT / EXEC)? -/
+def hasCut (rs : List Rec) : Bool :=
+  rs.any (fun r => match r with | .exit .. => true | .comm _ _ _ true _ => true | _ => false)
+
+end CsSpec
+
 /-! ## C17: eager lifecycle -/
 
 namespace Life
@@ -198,6 +321,11 @@ def step (s : S) : Rec → S
     let s := if s.cur = s.ref || path.isEmpty then s else ensureThread s pid tid
     -- an executable mapping mentions a process: it exists (even before the first sample / without a path)
     if exec then (ensureProc s pid).1 else s
+  -- a context-switch record or a sched_switch sample mentions a thread: it exists (same on-demand rule as
+  -- samples; switch records of the idle thread are ignored)
+  | .switchIn pid tid _ => if tid = 0 then s else ensureThread s pid tid
+  | .switchOut pid tid _ => if tid = 0 then s else ensureThread s pid tid
+  | .sched pid tid _ _ _ _ => ensureThread s pid tid
 
 def run (ref : Nat) (rs : List Rec) : S := rs.foldl step { ref, cur := ref }
 
@@ -240,6 +368,9 @@ def mentions : Rec → List (Nat × Nat)
   | .exit pid tid _ => [(pid, tid)]
   | .comm pid tid _ _ _ => [(pid, tid)]
   | .mmap2 pid tid _ _ _ _ _ _ => [(pid, tid)]
+  | .switchIn pid tid _ => if tid = 0 then [] else [(pid, tid)]
+  | .switchOut pid tid _ => if tid = 0 then [] else [(pid, tid)]
+  | .sched pid tid _ _ _ _ => [(pid, tid)]
 
 def gStep (g : G) (r : Rec) : G :=
   let s := g.s
